@@ -1,0 +1,45 @@
+//go:build verif
+
+package entity
+
+// The three SSZ containers hash exactly the fields of the consensus-spec containers, in order and with
+// their fixed widths (checked by /verif/gocv against an abstract hasher; comment-only file).
+
+//@ spec func traceBLS(tr int, idx uint64, key [48]byte, addr [20]byte) int = trMerk(trBytes(trBytes(trU64(tr, idx), acontent(key, 48), 48), acontent(addr, 20), 20), trIndex(tr))
+//@ spec func traceFork(tr int, version [4]byte, root [32]byte) int = trMerk(trBytes(trBytes(tr, acontent(version, 4), 4), acontent(root, 32), 32), trIndex(tr))
+//@ spec func traceSigning(tr int, obj [32]byte, domain [32]byte) int = trMerk(trBytes(trBytes(tr, acontent(obj, 32), 32), acontent(domain, 32), 32), trIndex(tr))
+
+//@ func (*BLSToExecutionChange).HashTreeRootWith
+//@   safety C18,C17
+//@   requires b != nil && hh != nil
+//@   ensures[C17.container.blschange] err == nil && $tr == traceBLS(old($tr), b.ValidatorIndex, b.FromBlsPubkey, b.ToExecutionAddress)
+
+//@ func (*ForkData).HashTreeRootWith
+//@   safety C18,C17
+//@   requires f != nil && hh != nil
+//@   ensures[C17.container.forkdata] err == nil && $tr == traceFork(old($tr), f.CurrentVersion, f.GenesisValidatorsRoot)
+
+//@ func (*SigningData).HashTreeRootWith
+//@   safety C18,C17
+//@   requires s != nil && hh != nil
+//@   ensures[C17.container.signingdata] err == nil && $tr == traceSigning(old($tr), s.ObjectRoot, s.Domain)
+
+// HashTreeRoot hands the object to fastssz, which runs HashTreeRootWith on a fresh hasher and returns the
+// Merkle root of the recorded trace: that link is fastssz's contract (trusted); the trace itself is proved above.
+//@ func (*BLSToExecutionChange).HashTreeRoot
+//@   assumed
+//@   requires b != nil
+//@   pure
+//@   trusted[C17.link.blschange] result1 == nil ==> result0 == sszRoot(traceBLS(trEmpty(), b.ValidatorIndex, b.FromBlsPubkey, b.ToExecutionAddress))
+
+//@ func (*ForkData).HashTreeRoot
+//@   assumed
+//@   requires f != nil
+//@   pure
+//@   trusted[C17.link.forkdata] result1 == nil ==> result0 == sszRoot(traceFork(trEmpty(), f.CurrentVersion, f.GenesisValidatorsRoot))
+
+//@ func (*SigningData).HashTreeRoot
+//@   assumed
+//@   requires s != nil
+//@   pure
+//@   trusted[C17.link.signingdata] result1 == nil ==> result0 == sszRoot(traceSigning(trEmpty(), s.ObjectRoot, s.Domain))
